@@ -535,6 +535,16 @@ bool c20::run_part7(std::string const& op, Toks& in, Out& impl, Out& ref)
         expl::run_expl<StdLib>(site, codes, ref);
         return true;
     }
+    if (op == "explw") {
+        // the call wrappers' constructors / conversion functions: implicit or explicit, etl next to std
+        expl::run_explw<EtlLib>(impl);
+        expl::run_explw<StdLib>(ref);
+        return true;
+    }
+    if (op == "explwx") {
+        expl::run_explwx(impl);
+        return true; // function_ref / capacity conversions: no libstdc++ 12 counterpart
+    }
     if (op == "explelem") {
         // the element table of op expl: the compiler is the reference, reference and spec legs are na
         expl::run_explelem(static_cast<int>(in.num()), impl);
